@@ -17,7 +17,9 @@ type oblResult struct {
 	Inconclusive bool
 }
 
-func (P *Program) queryFor(o *Obligation, model bool) string {
+func (P *Program) queryFor(o *Obligation, model bool) string { return P.queryForOpt(o, model, false) }
+
+func (P *Program) queryForOpt(o *Obligation, model bool, lite bool) string {
 	var b strings.Builder
 	for _, e := range o.Extra {
 		b.WriteString(e)
@@ -33,7 +35,7 @@ func (P *Program) queryFor(o *Obligation, model bool) string {
 	if model {
 		b.WriteString("(get-model)\n")
 	}
-	return P.vcText(o.vc, o.nAsserts, b.String())
+	return P.vcTextOpt(o.vc, o.nAsserts, b.String(), lite)
 }
 
 func (P *Program) discharge(obls []*Obligation, dir string, timeoutMs int, all bool, filter string) []oblResult {
@@ -69,6 +71,14 @@ func (P *Program) dischargeOne(o *Obligation, dir string, timeoutMs int, all boo
 			return oblResult{Obl: o, Res: r, OK: false}
 		}
 		return oblResult{Obl: o, Res: r, OK: true, Inconclusive: true}
+	}
+	// fast path: without any quantified assumption (sound; most safety obligations need none)
+	if !strings.Contains(o.Cond, "(forall ") && !strings.Contains(o.Cond, "(exists ") {
+		lq := P.queryForOpt(o, false, true)
+		if r := runQuery(dir, o.Name+".lite", lq, 1500, false, []string{"z3-new", "z3"}); r.Verdict == "unsat" {
+			r.Solver += "(lite)"
+			return oblResult{Obl: o, Res: r, OK: true}
+		}
 	}
 	r := runQuery(dir, o.Name, q, timeoutMs, all, nil)
 	return oblResult{Obl: o, Res: r, OK: r.Verdict == "unsat"}
